@@ -12,4 +12,5 @@ INVARIANT StopsAtFirstEos
 INVARIANT Shape
 INVARIANT FullSetWhenWide
 INVARIANT Export
+INVARIANT ExportStep
 CHECK_DEADLOCK FALSE
